@@ -74,7 +74,7 @@ impl World for OneshotWorld {
         &["C01", "C11", "C12", "C17", "C18"]
     }
     fn configs(&self, tier: Tier) -> Vec<Cfg> {
-        let k = if tier == Tier::Quick { 4 } else { 6 };
+        let k = if tier == Tier::Quick { 5 } else { 6 };
         let mut v = Vec::new();
         for flavour in [FL_LOCAL, FL_SYNC, FL_CHECKED, FL_SHARED, FL_SHARED_CHECKED] {
             for mode in [0u8, 1] {
